@@ -41,7 +41,12 @@ type bigv struct{ t *sym.Term }
 const symMarker = "⟦"
 const symMarkerEnd = "⟧"
 
-func hasSymMarker(s string) bool { return strings.Contains(s, symMarker) }
+// hasSymMarker: a marker is an opening bracket followed by a closing one (a
+// lone opening sequence can occur by chance in digest bytes).
+func hasSymMarker(s string) bool {
+	i := strings.Index(s, symMarker)
+	return i >= 0 && strings.Contains(s[i+len(symMarker):], symMarkerEnd)
+}
 
 // ---------------------------------------------------------------------
 // kinds
